@@ -361,6 +361,92 @@ pub mod reent {
     }
 }
 
+/// C13 / C04 / C02 with a component that has NO drop glue but a `Clone` that is not a bit copy
+/// (`needs_drop::<T>() == false` does not mean `T: Copy`): `World::clone` / `Archetype::clone` must
+/// call `Clone::clone` exactly once per live value and store ITS result.
+pub mod deepclone {
+    use super::P1;
+    use gecs::prelude::*;
+    use std::cell::Cell;
+
+    thread_local! {
+        static CLONES: Cell<u64> = Cell::new(0);
+    }
+    /// (payload, number of times this value's lineage went through Clone::clone)
+    pub struct Nc(pub u64, pub u64);
+    impl Clone for Nc {
+        fn clone(&self) -> Self {
+            CLONES.with(|c| c.set(c.get() + 1));
+            Nc(self.0, self.1 + 1)
+        }
+    }
+
+    ecs_world! {
+        ecs_name!(Wk);
+        ecs_archetype!(Ka, P1, Nc);
+        ecs_archetype!(Kb, Nc);
+    }
+
+    pub fn run() {
+        let mut w = Wk::new();
+        let a0 = w.create::<Ka>((P1(1), Nc(10, 0)));
+        let a1 = w.create::<Ka>((P1(2), Nc(20, 0)));
+        let a2 = w.create::<Ka>((P1(3), Nc(30, 0)));
+        let b0 = w.create::<Kb>((Nc(40, 0),));
+        w.destroy(a1);
+        CLONES.with(|c| c.set(0));
+        let mut c = w.clone();
+        let calls_world = CLONES.with(|c| c.replace(0));
+        let read = |w: &mut Wk, e: Entity<Ka>| ecs_find!(w, e, |n: &Nc| (n.0, n.1));
+        let readb = |w: &mut Wk, e: Entity<Kb>| ecs_find!(w, e, |n: &Nc| (n.0, n.1));
+        let clone_vals = (read(&mut c, a0), read(&mut c, a2), readb(&mut c, b0));
+        let orig_vals = (read(&mut w, a0), read(&mut w, a2), readb(&mut w, b0));
+        let mut ac = w.ka.clone();
+        let calls_arch = CLONES.with(|c| c.replace(0));
+        let arch_ok = ac.iter().all(|(_, _, n)| n.1 == 1) && ac.len() == 2;
+        println!(
+            "K1 clone_calls_world={} clone_calls_archetype={} clone_holds_clone_results={} original_untouched={} archetype_clone_ok={}",
+            calls_world,
+            calls_arch,
+            (clone_vals == (Some((10, 1)), Some((30, 1)), Some((40, 1)))) as u8,
+            (orig_vals == (Some((10, 0)), Some((30, 0)), Some((40, 0)))) as u8,
+            arch_ok as u8
+        );
+    }
+}
+
+/// C14 / C15 in a world whose explicit archetype ids are NOT in declaration order (7, 2, 3): the
+/// conversions into `SelectArchetype` / `SelectEntity` / `SelectEntityDirect` from the id and from
+/// handles agree for every archetype and report its own id.
+pub mod idorder {
+    use super::P1;
+    use gecs::prelude::*;
+    ecs_world! {
+        ecs_name!(Wv);
+        #[archetype_id(7)]
+        ecs_archetype!(Va, P1);
+        #[archetype_id(2)]
+        ecs_archetype!(Vb, P1);
+        ecs_archetype!(Vc, P1);
+    }
+    pub fn run() {
+        let mut w = Wv::new();
+        let ea = w.create::<Va>((P1(1),)).into_any();
+        let eb = w.create::<Vb>((P1(2),)).into_any();
+        let ec = w.create::<Vc>((P1(3),)).into_any();
+        let mut parts: Vec<String> = Vec::new();
+        for (e, id) in [(ea, <Va as Archetype>::ARCHETYPE_ID), (eb, <Vb as Archetype>::ARCHETYPE_ID), (ec, <Vc as Archetype>::ARCHETYPE_ID)] {
+            let by_id = SelectArchetype::try_from(id).map(|s| s.archetype_id() as i32).unwrap_or(-1);
+            let by_handle = SelectArchetype::try_from(e).map(|s| s.archetype_id() as i32).unwrap_or(-1);
+            let sel_e = SelectEntity::try_from(e).is_ok();
+            let sel_d = w.to_direct(e).map(|d| SelectEntityDirect::try_from(d).is_ok()).unwrap_or(false);
+            parts.push(format!("{}:{}/{}/{}{}", id, by_id, by_handle, sel_e as u8, sel_d as u8));
+        }
+        let undeclared: Vec<u8> = [0u8, 1, 4, 6, 8, 255].into_iter().filter(|i| SelectArchetype::try_from(*i).is_ok()).collect();
+        println!("V1 {} undeclared_accepted={:?}", parts.join(" "), undeclared);
+    }
+}
+
 /// C07: the step values an `ecs_iter_destroy!` closure may return and their conversions.
 fn step_values() {
     fn name(x: &EcsStepDestroy) -> &'static str {
@@ -397,6 +483,8 @@ pub fn run() {
     leaked_guard_growth();
     one::run();
     reent::run();
+    deepclone::run();
+    idorder::run();
     step_values();
     scenario!("S1", S1, s_1, |t: u64| (Ca::make(t, 1), P1(t)), 1);
     scenario!("S2", S2, s_2, |t: u64| (P1(t), Ca::make(t, 1)), 1);
@@ -479,6 +567,10 @@ pub mod ev {
         let (wc, e1) = walk(w.iter_created());
         let (wd, e2) = walk(w.iter_destroyed());
         println!("E4 created={} destroyed={} hints_exact={} only_left={}", wc.len(), wd.len(), (e1 && e2) as u8, (wc == vec![l1.into_any()]) as u8);
+        #[cfg(debug_assertions)]
+        crate::big256::run();
+        #[cfg(not(debug_assertions))]
+        println!("E5 skipped (release build)");
     }
 }
 
